@@ -227,21 +227,77 @@ func c13ObservePipeline(in *zz.In, inst bool) *zz.Obs {
 	if !zz.Stage(obs, "init", "Pipeline.Init", func() { p.Init(super, nil) }) {
 		return obs
 	}
+	c13Serve(p, in, obs, "handle", "Pipeline.Handle")
+	zz.Settle()
+	// the update path: generations built from the same document and from the variant inherit from the running one
+	for gi, d := range []interface{}{in.Doc, in.Doc2} {
+		if obs.Panic != "" || d == nil {
+			continue
+		}
+		y2, err := yaml2.Marshal(d)
+		if err != nil {
+			continue
+		}
+		if gi > 0 && !c13Serviceable(string(y2), in) {
+			continue
+		}
+		super2, err := supervisor.NewSpec(string(y2))
+		if err != nil {
+			continue
+		}
+		p2 := &Pipeline{}
+		prev := p
+		tag := fmt.Sprintf("gen%d", gi+2)
+		if !zz.Stage(obs, "other", tag+".Pipeline.Inherit", func() { p2.Inherit(super2, prev, nil) }) {
+			return obs
+		}
+		p = p2
+		c13Serve(p, in, obs, "other", tag+".Pipeline.Handle")
+		zz.Settle()
+	}
+	zz.Stage(obs, "other", "Status", func() { p.Status() })
+	zz.Stage(obs, "other", "Close", func() { p.Close() })
+	return obs
+}
+
+func c13Serve(p *Pipeline, in *zz.In, obs *zz.Obs, cls, at string) {
 	for i, rq := range in.Reqs {
+		if obs.Panic != "" {
+			return
+		}
 		ctx := zz.NewContextFor(in.Doc, rq)
 		if ctx == nil {
 			continue
 		}
-		ok := zz.Stage(obs, "handle", fmt.Sprintf("Pipeline.Handle#%d", i), func() { p.Handle(ctx) })
+		ok := zz.Stage(obs, cls, fmt.Sprintf("%s#%d", at, i), func() { p.Handle(ctx) })
 		zz.Stage(obs, "other", "Finish", func() { ctx.Finish() })
 		if !ok {
 			break
 		}
 	}
-	zz.Settle()
-	zz.Stage(obs, "other", "Status", func() { p.Status() })
-	zz.Stage(obs, "other", "Close", func() { p.Close() })
-	return obs
+}
+
+// c13Serviceable: the variant document is accepted, needs no external service and an instance
+// built from it alone serves the requests (otherwise it says nothing about Inherit).
+func c13Serviceable(yamlText string, in *zz.In) bool {
+	super, err := supervisor.NewSpec(yamlText)
+	if err != nil {
+		return false
+	}
+	for _, f := range super.ObjectSpec().(*Spec).Filters {
+		fs, err := filters.NewSpec(nil, "", f)
+		if err != nil || zz.SkipFilter(fs) != "" {
+			return false
+		}
+	}
+	probe := &zz.Obs{}
+	p := &Pipeline{}
+	if !zz.Stage(probe, "init", "probe", func() { p.Init(super, nil) }) {
+		return false
+	}
+	c13Serve(p, in, probe, "handle", "probe")
+	zz.Stage(probe, "other", "probe", func() { p.Close() })
+	return probe.Panic == ""
 }
 
 func c13Observe(in *zz.In, inst bool) *zz.Obs {
@@ -255,7 +311,7 @@ func c13Observe(in *zz.In, inst bool) *zz.Obs {
 	}
 }
 
-func c13Gen(r *vfRand, i int, adv bool) *zz.In {
+func c13Gen1(r *vfRand, i int, adv bool) *zz.In {
 	g := &zz.Gen{R: r, Adv: adv}
 	fk := zz.FilterKinds()
 	in := &zz.In{}
@@ -344,6 +400,24 @@ func c13Gen(r *vfRand, i int, adv bool) *zz.In {
 		}
 	}
 	in.Reqs = zz.DefaultReqs(g, rk, in.Doc)
+	return in
+}
+
+// c13Gen adds the variant document of the update path to half of the cases.
+func c13Gen(r *vfRand, i int, adv bool) *zz.In {
+	in := c13Gen1(r, i, adv)
+	if r.Chance(1, 2) {
+		if m, ok := zz.CanonTree(in.Doc).(map[string]interface{}); ok {
+			g := &zz.Gen{R: r}
+			d2 := zz.CloneTree(m).(map[string]interface{})
+			if in.Cat == "object" {
+				g.Mutate(d2, reflect.TypeOf(&Spec{}), 0)
+			} else if t := zz.SpecType(in.Cat, in.Kind); t != nil {
+				g.Mutate(d2, t, 0)
+			}
+			in.Doc2 = d2
+		}
+	}
 	return in
 }
 
